@@ -486,3 +486,55 @@ def _lines_unit():
 
 
 U_SPECTRAL_ROW = _lines_unit()
+
+
+# ==============================================================================  C06: mass.init, what follows the abundance loop (flush of the LAST element)
+
+def _tail_inputs(kind):
+    def mk(st, interp):
+        use_state(st)
+        z = st.fresh("z", z3.IntSort())
+        st.assume(z > 0 if kind == "last element pending" else z == 0)
+        A = [st.fresh("A%d" % i, z3.IntSort()) for i in range(2)]
+        v = [st.fresh("v%d" % i, z3.RealSort()) for i in range(2)]
+        dv = [st.fresh("dv%d" % i, z3.RealSort()) for i in range(2)]
+        st.assume(z3.And(A[0] != A[1], A[0] > 0, A[1] > 0, v[0] > 0, v[1] > 0))
+        value = VDict([[A[i], VTuple([v[i], dv[i]])] for i in range(2)])
+        writes = []
+        st.ghost["atom_setattr"] = lambda i_, s_, a, name, val, node: writes.append((a.expr, name, val))
+        st.ghost["atom_getitem"] = lambda i_, s_, a, idx, node: ATOMS.sym(s_, KC.ISOTOPE_OF(a.expr, to_z3num(idx)))
+        table = VObj("TargetTable", {})
+        mk.holder.clear()
+        mk.holder.update({"z": z, "value": value, "table": table})
+        return [], {}, dict(kind=kind, z=z, A=A, v=v, dv=dv, writes=writes)
+    mk.holder = {}
+    return mk
+
+
+def _tail_post(st, interp, C, res):
+    if res.outcome == "raise":
+        st.oblige("never-raises", False, kind="raises", info={"exc": res.exc, "line": res.lineno})
+        return
+    kind, z, A, v, dv, writes = C["kind"], C["z"], C["A"], C["v"], C["dv"], C["writes"]
+    if kind != "last element pending":
+        st.oblige("frame.an empty table leaves nothing to flush", z3.BoolVal(len(writes) == 0), kind="frame")
+        return
+    el = KC.TT_EL(z)
+    total = v[0] + v[1]
+    st.oblige("post.the element whose block ends the table is flushed too: two isotopes x (abundance, uncertainty)", z3.BoolVal(len(writes) == 4))
+    for i in range(2):
+        iso = KC.ISOTOPE_OF(el, A[i])
+        for name, num in (("_abundance", v[i]), ("_abundance_unc", dv[i])):
+            w = [val for (a, n, val) in writes if n == name and z3.eq(z3.simplify(a), z3.simplify(iso))]
+            st.oblige("post.last element: isotope %d %s == 100 * value / sum of the element's values" % (i, name),
+                      z3.BoolVal(len(w) == 1) if len(w) != 1 else to_real(w[0]) * total == 100 * num)
+
+
+def _tail_unit(kind):
+    mk = _tail_inputs(kind)
+    return Unit("mass.init::after the abundance loop[%s]" % kind, MASS + ".init::after#3", mk, _tail_post,
+                closure=lambda interp: [mk.holder], contracts={"TargetTable.__getitem__": KC.c_tt_getitem},
+                options={"div_zero": "branch"}, replay={"module": "c06", "task": "replay"})
+
+
+U_MASS_TAIL = [_tail_unit(k) for k in ("last element pending", "no element")]
